@@ -427,4 +427,7 @@ def replay(lead, inputs, obs):
 def harnesses(tier, seed):
     hs = [fn_harness(n) for n in ALL]
     hs += [setobjno_harness(), onheader_harness(), osegment_harness(), gsegment_harness(), lemma_harness(), flatten_objective_harness()]
+    # the objective number echoed in every .sol file (final and intermediate) is objno_used(): the SolutionAdapter construction of both writers
+    from specs import C10
+    hs += [C10.passthrough_writer(0, 'HandleFeasibleSolution', prop='C12'), C10.passthrough_writer(1, 'HandleSolution', prop='C12')]
     return hs
